@@ -78,7 +78,7 @@ def add_dir(d=I, ns=NSMASK, rsz=RSZ, sz=SZ):
 rm_file = op('rm_file', b=I, j=I)
 rm_dir = op('rm_dir', d=I, ns=st.sampled_from([7, 7, 7, 7, 1, 2, 4, 3]))
 add_link = op('add_link', b=I, j=I, to=I, d=I, sz=SZ, rsz=RSZ, usz=st.integers(0, 4), lead=I, salt=I, reuse=st.one_of(st.just(0), st.integers(1, 1 << 16)),
-              symsrc=st.sampled_from([0] * 9 + [1, 2]))
+              symsrc=st.sampled_from([0] * 9 + [1, 2]), within=st.sampled_from([0] * 6 + [1, 2, 3, 3]), dupnew=st.sampled_from([0] * 10 + [1, 2]))
 rm_link = op('rm_link', b=I, j=I)
 add_sym = op('add_sym', d=I, form=st.integers(0, 3), jol=st.booleans(), tgt=I, sz=SZ, rsz=RSZ, usz=st.integers(0, 4), lead=I, salt=I, reuse=REUSE, magic=MAGIC,
              tu=st.one_of(st.just(0), st.just(0), st.just(0), st.just(0), st.integers(1, 40)))
@@ -284,6 +284,8 @@ def any_profile(reopen_ok=False, weights=None, with_manydirs=False):
         table['twoboots'] = twoboots(reopen_ok=reopen_ok)
     if 'linktwins' in w:
         table['linktwins'] = linktwins(reopen_ok=reopen_ok)
+    if 'udflinks' in w:
+        table['udflinks'] = udflinks(reopen_ok=reopen_ok)
     if 'readd' in w:
         table['readd'] = readd(reopen_ok=reopen_ok)
     if 'symcomps' in w:
@@ -444,6 +446,29 @@ def linktwins(cfg=None, reopen_ok=True):
     shift = st.lists(st.one_of(add_dir(d=st.just(0)), add_dir(d=st.just(0)), add_fp(length=SMALL_LEN, d=st.just(0))), min_size=1, max_size=2)
     tail = st.lists(st.one_of(rm_file, add_fp(length=SMALL_LEN), query, add_dir(d=st.just(0))), min_size=0, max_size=3)
     return program(c, st.builds(build, add_dir(), add_dir(), st.lists(F, min_size=1, max_size=3), I, add_link, st.one_of(*mids), st.sampled_from([1, 1, 0]), shift, tail))
+
+
+def udflinks(cfg=None, reopen_ok=True):
+    """Files (some of them empty) with a UDF name, a second UDF name for each (add_hard_link udf -> udf: both names share one
+    File Entry), a reopen, then one of the two names goes / something is added, and the image is written again."""
+    c = cfg if cfg is not None else cfg_st(udf=st.just(True))
+
+    def build(files, links, mid, edits, tail):
+        ops = [dict(f, d=0, reuse=0, ns=(f.get('ns', 7) | 4)) for f in files]
+        ops += [dict(l, b=k, j=0, d=0, within=3, symsrc=0, dupnew=0, reuse=0) for k, l in enumerate(links[:len(files)])]
+        ops += mid
+        ops += edits
+        ops.append({'k': 'write'})
+        return ops + tail
+    F = add_fp(length=st.sampled_from([0, 0, 1, 300, 2049, 5000]), file=st.just(False), ns=st.sampled_from([7, 5, 4]))
+    mids = [st.just([{'k': 'write'}])]
+    if reopen_ok:
+        mids += [st.just([{'k': 'reopen'}]), st.just([{'k': 'reopen'}]), st.just([{'k': 'reopen'}])]
+    E = st.lists(st.one_of(rm_link, rm_link, add_fp(length=SMALL_LEN, d=st.just(0)), add_dir(d=st.just(0)), rm_file), min_size=1, max_size=4)
+    tail = st.lists(st.one_of(rm_link, rm_file, add_fp(length=SMALL_LEN), write), min_size=0, max_size=3)
+    if reopen_ok:
+        tail = st.lists(st.one_of(rm_link, rm_file, add_fp(length=SMALL_LEN), write, reopen), min_size=0, max_size=3)
+    return program(c, st.builds(build, st.lists(F, min_size=1, max_size=3), st.lists(add_link, min_size=3, max_size=3), st.one_of(*mids), E, tail))
 
 
 def biglinks(cfg=None, reopen_ok=True):
